@@ -1026,6 +1026,17 @@ static std::ostream& print_double(std::ostream& os, double value)
 }
 
 /**
+ * True for the LIST of an initialiser "{ e1, .., en }": it has the type of the array or record it initialises
+ * (StatementBuilder::decl_init_list, TypeChecker::checkInitialiser); the lists of a query have no type or type LIST.
+ */
+static bool is_initialiser_list(const expression_t& expr)
+{
+    const auto type = expr.get_type();
+    const auto kind = type.get_kind();
+    return kind != UNKNOWN && kind != LIST && (type.is_record() || type.is_array());
+}
+
+/**
  * True for a process-set lookup "P(e1, .., en)": the builder stores it as ARRAY(..ARRAY(P, e1).., en)
  * (ExpressionBuilder::expr_call_end), but the parser builds that tree from the call syntax only.
  */
@@ -1486,13 +1497,20 @@ std::ostream& expression_t::print(std::ostream& os, bool old) const
 
     case DEADLOCK: os << "deadlock"; break;
 
-    case LIST:
+    case LIST: {
+        // the lists of a query are delimited by the syntax around them, an initialiser list has braces of its own
+        const bool braces = is_initialiser_list(*this);
+        if (braces)
+            os << "{ ";
         if (get_size() > 0) {
             get(0).print(os, old);
             for (uint32_t i = 1; i < get_size(); i++)
                 get(i).print(os << ", ", old);
         }
+        if (braces)
+            os << " }";
         break;
+    }
 
     case FUN_CALL:
     case FUN_CALL_EXT:
